@@ -2,7 +2,7 @@
 import numpy as np
 
 from .. import casecheck
-from ..pool import contract, metadata_problem
+from ..pool import contract, metadata_problem, caller_array
 from .c15 import leaf_values, psi_from_leaves, make_fn, candidates_deficient
 
 ASSUME = [
@@ -93,7 +93,7 @@ def cmp_eigs(lam, w2, M):
 def replay(case):
     import scikit_tt.data_driven.tedmd as tedmd
     cfg, exp = case['cfg'], case['expect']
-    x = np.array(exp['x'], dtype=float)
+    x = caller_array(np.array(exp['x'], dtype=float), cfg['seed'])      # read-only, Fortran-ordered for odd seeds
     m = x.shape[1]
     psi = psi_from_leaves(leaf_values(exp['leaves']))
     P = psi.reshape(-1, m)
